@@ -81,8 +81,12 @@ def real_exit_cases():
                 p = subprocess.run([sys.executable, '-c', code], capture_output=True, text=True, timeout=120,
                                    env=dict(os.environ, PYTHONPATH=f"{os.environ.get('PGV_REPO', '/repo')}/src:{ROOT}"))
                 state = SF.dump(db)
-                ok = state == pre or (state == post and (at, kind) == ('commit', 'die_after'))
-                yield {'name': f"{name}|exit@{at}:{kind}", 'ok': ok and p.returncode in (9, 0),
-                       'detail': '' if ok else f"rc={p.returncode}; neither pre-state nor complete effect; {p.stderr[-200:]}"}
+                if p.returncode == 0:
+                    # the operation has fewer statements than the injection position: nobody died, the call completed
+                    ok, why = state == post, 'call completed without reaching the injection point but its effect is not in the file'
+                else:
+                    ok = p.returncode == 9 and (state == pre or (state == post and (at, kind) == ('commit', 'die_after')))
+                    why = 'neither pre-state nor complete effect'
+                yield {'name': f"{name}|exit@{at}:{kind}", 'ok': ok, 'detail': '' if ok else f"rc={p.returncode}; {why}; {p.stderr[-200:]}"}
     finally:
         shutil.rmtree(tmp, ignore_errors=True)
